@@ -19,6 +19,10 @@ BptcTypes == {"PIHeader", "VoiceLCHeader", "TerminatorWithLC", "CSBK", "DataHead
 BptcBit(payload, t) ==
   Cardinality({i \in 0..95 : BitAt(payload, i) = 1 /\ t \in SeqSet(D.basis[i + 1])}) % 2
 
+\* rate 3/4: the trellis pipeline of Trellis34.tla over the tables learned for C10 (D.trellis = [T, PD, DB, I])
+TR == INSTANCE Trellis34
+TrellisBit(payload, t) == TR!EncBit(D.trellis.T, D.trellis.PD, D.trellis.DB, D.trellis.I, payload, t)
+
 Judge(ph, i) ==
   CASE ph = "data" ->
          LET b == D.data[i + 1]
@@ -29,6 +33,7 @@ Judge(ph, i) ==
                         ELSE IF b.dt = "Rate1Data" THEN
                              \E t \in 0..195 : InfoBit(b.bytes, t) # (IF t < 96 THEN BitAt(b.payload, t)
                                                                      ELSE IF t < 100 THEN 0 ELSE BitAt(b.payload, t - 4))
+                        ELSE IF b.dt = "Rate34Data" THEN \E t \in 0..195 : InfoBit(b.bytes, t) # TrellisBit(b.payload, t)
                         ELSE FALSE
          IN [why |-> IF b.err # "" THEN "AssembleParse/" \o b.err
                      ELSE IF b.nbytes # 33 THEN "BurstIs33Bytes"
